@@ -380,6 +380,63 @@ C["C41"] = {
  "trusted_base": ENGINE_TB,
 }
 
+# ---------------- C28 ----------------
+def c28(thorough):
+    hs = [H("VerifC28Stream", N=5 if thorough else 4, VER=5), H("VerifC28Stream", N=5 if thorough else 4, VER=4), H("VerifC28MaxSize")]
+    for t in range(0, 16):
+        hs.append(H("VerifC28Process", TYPE=t))
+    return hs
+C["C28"] = {
+ "pkgs": ["."],
+ "technique": "bounded symbolic execution of the real connection handler on an arbitrary byte stream after a valid CONNECT (every panic site is a solver query), of processPacket for arbitrary packet values, and of the size refusal arithmetic",
+ "quick": {"harnesses": c28(False), "budget_s": 600, "witnesses": 3, "perm_limit": 1,
+   "bounds": "stream: every byte string of 0..4 bytes after CONNECT (v4 and v5 clients, with/without will, clean or not), server MaximumPacketSize 24, a second well-behaved client connected throughout; process: for each of the 16 packet types a packet with symbolic QoS/DUP/retain/id/reason code and type-specific fields from small sets incl. invalid ones, on a session with symbolic in-flight record and exhausted or full receive quota, protocol 3/4/5; size test: MaximumPacketSize symbolic 4..200, 1- and 2-byte remaining lengths symbolic"},
+ "thorough": {"harnesses": c28(True), "budget_s": 3000, "witnesses": 6, "perm_limit": 1, "bounds": "as quick with streams of 0..5 bytes"},
+ "outside_bounds": ["longer streams (the decoders alone are covered to 8-12 bytes by C27)", "process-level effects (memory, goroutine leaks)", "true parallelism between the two connections (cooperative scheduling; data-race freedom is C33, not decided)"],
+ "stubs": SRV_STUBS + LIVE, "trusted_base": SRV_TB,
+}
+# ---------------- C31 ----------------
+C["C31"] = {
+ "pkgs": ["."],
+ "technique": "bounded exploration by the engine of operation histories on the real trie against a set/map model (refinement after every step), symbolic final queries decided by the solver, and interleavings of one mutator with one reader at every lock operation within a pre-emption bound (linearizability of the pair)",
+ "quick": {"harnesses": [H("VerifC31Sequential", STEPS=2), H("VerifC31Sequential", STEPS=1, ANY=1, T=2, F=2), H("VerifC31Concurrent", PREEMPT=1, PERM=1)], "budget_s": 600, "witnesses": 6, "perm_limit": 2,
+   "bounds": "histories of 2 operations among Subscribe/Unsubscribe/InlineSubscribe/InlineUnsubscribe/RetainMessage set/clear over 2 clients, filters {a, a/b, a/+, a/#, $share/g/a/b}, topics {a, a/b, a/b/c}; after 1 operation additionally every topic of 1..3 bytes and every valid filter of 1..3 bytes (symbolic); concurrent: one mutator goroutine vs one reader goroutine, <= 1 pre-emption at lock operations"},
+ "thorough": {"harnesses": [H("VerifC31Sequential", STEPS=3), H("VerifC31Sequential", STEPS=2, ANY=1, T=2, F=2), H("VerifC31Concurrent", PREEMPT=2, PERM=1)], "budget_s": 3600, "witnesses": 12, "perm_limit": 2, "bounds": "histories of 3 operations; <= 2 pre-emptions"},
+ "outside_bounds": ["more than two goroutines", "interleavings below lock granularity (data-race freedom is assumed: C33 is not decided)", "longer histories"],
+ "stubs": ["sync.RWMutex: lock tracker with blocking semantics between interpreted goroutines"],
+ "trusted_base": ENGINE_TB + ["set/map model and refMatch in the harness"],
+}
+# ---------------- C32 ----------------
+C["C32"] = {
+ "pkgs": ["."],
+ "technique": "lock-discipline analysis on symbolically executed paths: the engine's lock tracker records every sync.(RW)Mutex acquisition with the locks already held by that goroutine; path feasibility is the solver's; re-acquisition and opposite acquisition orders are reported",
+ "quick": {"harnesses": [H("VerifC32Sweep"), H("VerifC32Handlers"), H("VerifC14Takeover"), H("VerifC16Will"), H("VerifC38Counters", STEPS=2)], "budget_s": 400, "witnesses": 3, "perm_limit": 1, "lock_check": True,
+   "bounds": "one call of every method of Clients, Inflight, Subscriptions/SharedSubscriptions/InlineSubscriptions, TopicsIndex, packets.Packets, topic aliases, Client id/write/resend operations, Hooks, housekeeping and the inline API; every request type through the handlers from a state with deferred and in-flight messages; the takeover, will and counter histories through the real connection handler with goroutines"},
+ "thorough": {"harnesses": [H("VerifC32Sweep"), H("VerifC32Handlers"), H("VerifC14Takeover", PREEMPT=1), H("VerifC16Will"), H("VerifC38Counters", STEPS=3), H("VerifC03History", STEPS=3)], "budget_s": 3000, "witnesses": 3, "perm_limit": 1, "lock_check": True, "bounds": "as quick with one pre-emption in the takeover scenario and longer histories"},
+ "outside_bounds": ["liveness beyond mutexes: blocking on channels, WaitGroups, connection writes, scheduler fairness ('no goroutine blocks forever', 'keeps serving')", "listeners package and storage hooks", "lock acquisition sites not executed by these harnesses (the executed sites are listed in the evidence)"],
+ "stubs": SRV_STUBS + LIVE, "trusted_base": SRV_TB,
+}
+# ---------------- C34 ----------------
+C["C34"] = {
+ "pkgs": ["."],
+ "technique": "bounded symbolic execution of WritePacket/flushOutbuf/publishToClient over solver-chosen write scripts with small buffer sizes; the broker's own sent-reports (OnPacketSent) are compared with the packets parsed from the connection transcript at quiescence",
+ "quick": {"harnesses": [H("VerifC34Flush", STEPS=3, PAYLOAD=8), H("VerifC34WriteError", MSGS=3)], "budget_s": 600, "witnesses": 6, "perm_limit": 1,
+   "bounds": "ClientNetWriteBufferSize in {8,16,24}, outbound queue capacity 1..3, client Maximum Packet Size absent or symbolic 6..20, every script of 3 steps among {message of 0..8 payload bytes enters publishToClient, direct write, write loop takes one packet}; connection write errors as decisions over 3 messages"},
+ "thorough": {"harnesses": [H("VerifC34Flush", STEPS=4, PAYLOAD=10), H("VerifC34WriteError", MSGS=4)], "budget_s": 3600, "witnesses": 12, "perm_limit": 1, "bounds": "scripts of 4 steps, payload up to 10 bytes"},
+ "outside_bounds": ["the real WriteLoop goroutine racing with direct writes (its body is executed by the harness, one packet at a time)", "in-flight limit and packet-id exhaustion drops (reported via their own hooks; exercised in C38/C10)"],
+ "stubs": SRV_STUBS, "trusted_base": SRV_TB,
+}
+# ---------------- C38 ----------------
+C["C38"] = {
+ "pkgs": ["."],
+ "technique": "bounded symbolic execution of solver-chosen histories through the real connection handler, request handlers and housekeeping; after every step the $SYS counters are compared with counts recomputed from the real data structures",
+ "quick": {"harnesses": [H("VerifC38Counters", STEPS=3, QUEUE=1)], "budget_s": 400, "witnesses": 6, "perm_limit": 1,
+   "bounds": "one client (protocol 4/5, clean or not), every history of 3 steps among {subscribe, unsubscribe (also of a filter never held), QoS 1 delivery (retained or not), client retained publish set/clear, PUBACK, connection lost / reconnect, housekeeping at a symbolic time, burst of two messages into a queue of capacity 1}"},
+ "thorough": {"harnesses": [H("VerifC38Counters", STEPS=4, QUEUE=1), H("VerifC38Counters", STEPS=3, QUEUE=4)], "budget_s": 3000, "witnesses": 12, "perm_limit": 1, "bounds": "histories of 4 steps"},
+ "outside_bounds": ["counters other than clients connected, subscriptions, retained, in-flight", "several clients"],
+ "stubs": SRV_STUBS + LIVE, "trusted_base": SRV_TB,
+}
+
 def main():
     os.makedirs(os.path.join(root, "checks"), exist_ok=True)
     for cid, c in C.items():
